@@ -23,7 +23,7 @@ trait InputTextIndex {
         requires offset < self.sp_nch()
         ensures r == self.sp_cat_at(offset as int);
 }
-pub struct Lattice { _p: () }
+#[verifier::external_body] pub struct Lattice { _p: () }
 
 // contract of concat_oov_nodes: discharged on the real body in unit v_node
 //@extract sudachi/src/analysis/node.rs :: fn concat_oov_nodes
